@@ -37,7 +37,6 @@ const SMALL: [i64; 16] = [
 
 struct NodeRec {
     arc: Arc<Node>,
-    host: usize,
     dc: Option<usize>,
     /// Created by a re-creation that changed the datacenter of the host.
     dc_changed: bool,
@@ -124,7 +123,6 @@ impl World {
         // never reused and pointer identity is unambiguous.
         self.nodes.push(NodeRec {
             arc,
-            host,
             dc,
             dc_changed,
         });
